@@ -387,3 +387,136 @@ func ruleERR3(c *Ctx) []Ob {
 
 var _ = fmt.Sprint
 var _ types.Type
+
+// ---------------------------------------------------------------- ERR4
+
+// ERR4: an error result that is looked at somewhere is looked at before the
+// function reports success. For a call whose error result e is bound, every
+// path from the call to a `return ..., nil` crosses an edge on which e is known
+// to be nil, or on which e was recognised as a sentinel (errors.Is / ==).
+// (ERR1 asks that e is used at all; this asks that no path to success skips
+// the test, e.g. `ok, err := probe(); if !ok { return nil }; if err != nil ...`.)
+func ruleERR4(c *Ctx) []Ob {
+	o := newObs(c, "ERR4")
+	for _, fn := range c.LibFuncs {
+		errIdx := errResultIndex(fn.Signature)
+		if errIdx < 0 || len(fn.Blocks) == 0 {
+			continue
+		}
+		var nilRets []*ssa.Return
+		for _, ret := range returnsOf(fn) {
+			if rv, ok := returnedValue(ret, errIdx); ok && isNilConst(rv) {
+				nilRets = append(nilRets, ret)
+			}
+		}
+		if len(nilRets) == 0 {
+			continue
+		}
+		n := 0
+		for _, b := range fn.Blocks {
+			for _, in := range b.Instrs {
+				call, ok := in.(*ssa.Call)
+				if !ok {
+					continue
+				}
+				sig := call.Common().Signature()
+				ei := errResultIndex(sig)
+				if ei < 0 {
+					continue
+				}
+				evs := resultValues(call, ei)
+				if len(evs) == 0 {
+					continue
+				}
+				isE := func(x ssa.Value) bool {
+					for _, og := range origins(x) {
+						for _, e := range evs {
+							if og == e {
+								return true
+							}
+						}
+					}
+					return false
+				}
+				// the error is handed on as a value (returned, stored, passed): not this rule's business
+				var cut []edge
+				cut = append(cut, nilEdges(fn, isE)...)
+				ifEdges(fn, func(cond ssa.Value, e edge) {
+					if ev, _, ok := errorsIsCall(cond); ok && isE(ev) && e.Branch {
+						cut = append(cut, e)
+					}
+					if bo, ok := cond.(*ssa.BinOp); ok && (bo.Op == token.EQL || bo.Op == token.NEQ) {
+						if (isE(bo.X) && globalLoad(bo.Y) != nil) || (isE(bo.Y) && globalLoad(bo.X) != nil) {
+							if e.Branch == (bo.Op == token.EQL) {
+								cut = append(cut, e)
+							}
+						}
+					}
+				})
+				cutSet := map[edge]bool{}
+				for _, e := range cut {
+					cutSet[e] = true
+				}
+				n++
+				key := fmt.Sprintf("%s/%s", c.fname(fn), shortCallee(call))
+				if n > 1 {
+					key = fmt.Sprintf("%s #%d", key, n)
+				}
+				// walk from the call
+				seen := map[*ssa.BasicBlock]bool{}
+				stack := []*ssa.BasicBlock{b}
+				first := true
+				bad := ""
+				for len(stack) > 0 && bad == "" {
+					x := stack[len(stack)-1]
+					stack = stack[:len(stack)-1]
+					if seen[x] && !(first) {
+						continue
+					}
+					if !first {
+						seen[x] = true
+						for _, r := range nilRets {
+							if r.Block() == x {
+								bad = relPath(c, r.Pos())
+							}
+						}
+					} else {
+						// the call's own block: a nil return in it comes after the call
+						for _, r := range nilRets {
+							if r.Block() == x {
+								bad = relPath(c, r.Pos())
+							}
+						}
+					}
+					first = false
+					isIf := false
+					if len(x.Instrs) > 0 {
+						_, isIf = x.Instrs[len(x.Instrs)-1].(*ssa.If)
+					}
+					for i, s := range x.Succs {
+						if isIf && cutSet[edge{x, i == 0}] {
+							continue
+						}
+						if !seen[s] {
+							stack = append(stack, s)
+						}
+					}
+				}
+				if bad == "" {
+					o.add(OK, key, relPath(c, call.Pos()), "no success return is reachable from the call without a nil (or sentinel) test of its error")
+				} else {
+					o.add(VIOLATED, key, relPath(c, call.Pos()), "the function can return success at %s on a path from this call that never tests the call's error: a failure of %s is swallowed into a success", bad, shortCallee(call))
+				}
+			}
+		}
+	}
+	return o.list
+}
+
+func shortCallee(call ssa.CallInstruction) string {
+	full := calleeFullName(call)
+	if i := strings.LastIndex(full, "/"); i >= 0 {
+		full = full[i+1:]
+	}
+	return full
+}
